@@ -50,28 +50,28 @@ mod verif_stmt_kani {
         core::mem::forget(s);
     }
 
-    //@harness props=C02,C12 kind=bounded fns=ends_with_prefix,expression_ends_with_prefix bound="local assignment whose last value is one of the 6 prefix-expression forms (identifier, call, parenthese, field, index, type instantiation), directly or as right operand of any binary operator" budget=300
+    //@harness props=C02,C12 kind=bounded fns=ends_with_prefix,expression_ends_with_prefix bound="local assignment whose last value is one of the 6 prefix-expression forms (identifier, call, parenthese, field, index, type instantiation), directly or as right operand of any binary operator" budget=400
     //@ desc="ends_with_prefix(local x = <... prefixexp>) is true for every prefix-expression form at the right edge"
     #[kani::proof]
     #[kani::unwind(4)]
     fn vk_stmt_ends_with_prefix_local_direct() {
         check_ends(0, 0);
     }
-    //@harness props=C02,C12 kind=bounded fns=ends_with_prefix,expression_ends_with_prefix bound="assignment `x = a <op> <prefixexp>` for all 16 operators and the 6 prefix-expression forms" budget=300
+    //@harness props=C02,C12 kind=bounded fns=ends_with_prefix,expression_ends_with_prefix bound="assignment `x = a <op> <prefixexp>` for all 16 operators and the 6 prefix-expression forms" budget=400
     //@ desc="ends_with_prefix(x = a op <prefixexp>) is true"
     #[kani::proof]
     #[kani::unwind(4)]
     fn vk_stmt_ends_with_prefix_assign_binary() {
         check_ends(1, 1);
     }
-    //@harness props=C02,C12 kind=bounded fns=ends_with_prefix,expression_ends_with_prefix bound="repeat ... until <unary op> <prefixexp>, all 3 unary operators, 6 prefix-expression forms" budget=300
+    //@harness props=C02,C12 kind=bounded fns=ends_with_prefix,expression_ends_with_prefix bound="repeat ... until <unary op> <prefixexp>, all 3 unary operators, 6 prefix-expression forms" budget=400
     //@ desc="ends_with_prefix(repeat until op <prefixexp>) is true"
     #[kani::proof]
     #[kani::unwind(4)]
     fn vk_stmt_ends_with_prefix_repeat_unary() {
         check_ends(2, 2);
     }
-    //@harness props=C02,C12 kind=bounded fns=ends_with_prefix,expression_ends_with_prefix bound="local x = if c then r else <prefixexp>, 6 prefix-expression forms" budget=300
+    //@harness props=C02,C12 kind=bounded fns=ends_with_prefix,expression_ends_with_prefix bound="local x = if c then r else <prefixexp>, 6 prefix-expression forms" budget=400
     //@ desc="ends_with_prefix(local x = if c then r else <prefixexp>) is true"
     #[kani::proof]
     #[kani::unwind(4)]
@@ -82,7 +82,7 @@ mod verif_stmt_kani {
     // MEASURED: harnesses that build `Statement::Call` / `Statement::Assign` values for
     // starts_with_parenthese do not get past CBMC's preprocessing in 300 s; the prefix walk that
     // function delegates to is checked directly instead.
-    //@harness props=C02,C12 kind=bounded fns=prefix_starts_with_parenthese,call_starts_with_parenthese,field_starts_with_parenthese,index_starts_with_parenthese bound="ENUMERATED prefix chains: (e), (e).f, (e)[k], (e)(), (e).f[k], and the chain a.f (must be false for the witness cover)" budget=300
+    //@harness props=C02,C12 kind=bounded fns=prefix_starts_with_parenthese,call_starts_with_parenthese,field_starts_with_parenthese,index_starts_with_parenthese bound="ENUMERATED prefix chains: (e), (e).f, (e)[k], (e)(), (e).f[k], and the chain a.f (must be false for the witness cover)" budget=400
     //@ desc="prefix_starts_with_parenthese(p) is true whenever the leftmost element of the prefix chain is a parenthesised expression (field, index, call links; chain length 1..3)"
     #[kani::proof]
     #[kani::unwind(5)]
